@@ -243,11 +243,9 @@ func (g *grpcClient) WriteRequestHeader(_ StreamType, header http.Header) {
 	}
 }
 
-func (g *grpcClient) NewConn(
-	ctx context.Context,
-	spec Spec,
-	header http.Header,
-) StreamingClientConn {
+// grpcSetRequestTimeout makes the timeout header say what's left of the
+// context's deadline right now, or nothing if there's no deadline.
+func grpcSetRequestTimeout(ctx context.Context, header http.Header) {
 	// The header map may be the caller's Request.Header(), which outlives this
 	// call: don't let a timeout written for an earlier call linger.
 	header.Del(grpcHeaderTimeout)
@@ -258,6 +256,14 @@ func (g *grpcClient) NewConn(
 			header[grpcHeaderTimeout] = []string{encodedDeadline}
 		}
 	}
+}
+
+func (g *grpcClient) NewConn(
+	ctx context.Context,
+	spec Spec,
+	header http.Header,
+) StreamingClientConn {
+	grpcSetRequestTimeout(ctx, header)
 	duplexCall := newDuplexHTTPCall(
 		ctx,
 		g.HTTPClient,
@@ -265,6 +271,12 @@ func (g *grpcClient) NewConn(
 		spec,
 		header,
 	)
+	// The timeout we send is what's left of the deadline when the request goes
+	// out. For streams, that may be long after the stream was created - and
+	// more headers may have been merged into the map in between.
+	duplexCall.SetOnRequestSend(func(header http.Header) {
+		grpcSetRequestTimeout(ctx, header)
+	})
 	conn := &grpcClientConn{
 		spec:             spec,
 		duplexCall:       duplexCall,
